@@ -3,7 +3,7 @@
 From Coq Require Import List Arith NArith ZArith Bool Lia.
 From RecordUpdate Require Import RecordSet.
 From SV Require Import Base.Base IR.State IR.NS IR.Ops Xform.Clone Proofs.InvW Proofs.CloneFrame Proofs.CloneStart Proofs.CloneFull
-  Proofs.CloneNetInv Proofs.Locality Proofs.LocalityStep Proofs.LocalityHist Proofs.LocalityClone Proofs.LocalityOrig Proofs.XHistAll.
+  Proofs.CloneNetInv Proofs.Locality Proofs.LocalityStep Proofs.LocalityHist Proofs.LocalityClone Proofs.LocalityOrig Proofs.XHistAll Proofs.LocalityDrefs Proofs.Inv2a Proofs.Fresh.
 Import ListNotations RecordSetNotations.
 
 Theorem netlist_clone_copy_region_closed ops n :
@@ -36,24 +36,25 @@ Theorem netlist_clone_orig_region_closed ops n :
   let s := run ops init in
   let sF := fst (fst (clone_netlist s n)) in
   kind_of s n = Some KNetlist -> Closed s n -> snd (fst (clone_netlist s n)) = None ->
-  norefb (next s) (next sF) sF = true ->
   RClosed (orig_region (next s) (next sF)) sF.
 Proof.
-  intros s sF Hk Hc Hok Hn. destruct (clone_netlist_ci s n (reachable_startok ops)) as [m C].
+  intros s sF Hk Hc Hok. destruct (clone_netlist_ci s n (reachable_startok ops)) as [m C].
   pose proof (g_run ops init XHistAll.g_init) as Gs. fold s in Gs.
   assert (GF : XHistAll.G sF).
   { pose proof (XHistAll.g_clone_any s n Gs) as H. unfold clone_any in H. rewrite Hk in H. apply H; [intros _; exact Hc|exact Hok]. }
   destruct Gs as [Us [_ [_ TKs]]]. destruct GF as [UF' _].
-  apply (orig_region_closed s sF m Us TKs UF' C). apply norefb_ok. exact Hn.
+  apply (orig_region_closed s sF m Us TKs UF' C). intros d x Hd Hx. left.
+  unfold sF, s in Hx. rewrite (clone_netlist_reachable_old_drefs ops n Hk Hc Hok d Hd) in Hx. fold s in Hx.
+  destruct Us as [Is [_ [Fs _]]]. apply (i2_ref _ (inv_r _ Is)) in Hx.
+  destruct (Nat.lt_ge_cases x (next s)) as [Hl|Hg]; [exact Hl|]. rewrite (f_iref _ Fs x Hg) in Hx. discriminate.
 Qed.
 
 Theorem netlist_clone_orig_edits_independent ops n h :
   let s := run ops init in
   let sF := fst (fst (clone_netlist s n)) in
   kind_of s n = Some KNetlist -> Closed s n -> snd (fst (clone_netlist s n)) = None ->
-  norefb (next s) (next sF) sF = true ->
   Forall (op_in (orig_region (next s) (next sF))) h ->
   out_eq (orig_region (next s) (next sF)) sF (run h sF) /\ RClosed (orig_region (next s) (next sF)) (run h sF).
 Proof.
-  intros s sF Hk Hc Hok Hn H. apply (history_independent _ sF h (netlist_clone_orig_region_closed ops n Hk Hc Hok Hn) H).
+  intros s sF Hk Hc Hok H. apply (history_independent _ sF h (netlist_clone_orig_region_closed ops n Hk Hc Hok) H).
 Qed.
